@@ -302,8 +302,22 @@ def generated_case(ctx, rng, idx):
                 k_s = int(rng.integers(1, len(cand)))
                 subset = [cand[i] for i in rng.permutation(len(cand))[:k_s]]
                 feats['sensitivity_selection'] = True
+                if rng.random() < 0.5:
+                    # (another selection of the same size came first)
+                    obj.enable_sensitivities(True, [cand[i] for i in
+                                                    rng.permutation(
+                                                        len(cand))[:k_s]])
                 obj.enable_sensitivities(True, subset)
             else:
+                if rng.random() < 0.4 and len(obj.parameters()) >= 2:
+                    # an earlier selection (one parameter, then another of
+                    # the same size) is replaced by the later requests
+                    pn_ = list(obj.parameters())
+                    obj.enable_sensitivities(True, [pn_[int(
+                        rng.integers(len(pn_)))]])
+                    obj.enable_sensitivities(True, [pn_[int(
+                        rng.integers(len(pn_)))]])
+                    feats['earlier_selections'] = True
                 obj.enable_sensitivities(True)
         y2, s = obj.simulate(x[free], times)
     except Exception as e:      # noqa
